@@ -754,6 +754,13 @@ where
                 .write()
                 .with(|mut shard| shard.get_mutable(hash, key)),
         }
+        // The lookup took a reference: wrap it into an entry so that dropping it gives the reference back.
+        .map(|record| RawCacheEntry {
+            pipe: self.pipe.clone(),
+            inner: self.inner.clone(),
+            record,
+            source: Source::Memory,
+        })
         .is_some()
     }
 
